@@ -322,7 +322,10 @@ func c09Pipelines(r *core.R, limits []int) {
 		// predictors: Flate / LZW with PNG Up predictor, rows of C columns
 		for _, fname := range []string{filter.Flate} { // pdfcpu does not support predictors with LZW
 			for _, cols := range []int{1, 5, L / 2, L + 1} {
-				for _, n := range []int{L - 1, L, L + 1, 16 * L} {
+				for _, n := range []int{L - 1, L, L + 1, 16 * L, 1024 * L, 16384 * L} {
+					if n > 64<<20 {
+						continue // 1024 x 64 KiB is the largest bomb built
+					}
 					rows := n / cols
 					if rows == 0 {
 						continue
